@@ -13,16 +13,35 @@
 //!  * bitflip (iii): every single-bit flip inside the covered range of a protected message is refused.
 //!  * no_panic (iv): byte strings, lying TLVs, mutated messages, TURN methods: no panic (nothing else).
 //!  * demux_sip (v): SIP text (incl. methods whose first byte looks like a STUN type) is never STUN.
+//!  * demux_datagram (ii, v): a DATAGRAM that holds a complete reference-encoded message (header length =
+//!    its attributes) FOLLOWED by further bytes: a well-formed attribute of a type the message does not
+//!    carry (half of them address attributes, XOR-ed with the message's id), bytes of the same size that
+//!    are no attribute (length field overrunning the datagram / arbitrary bytes), CRLF, 1-3 bytes, zero
+//!    words, 4-40 arbitrary bytes, SIP text, a second complete message. Asserted: is_stun_message says
+//!    Yes with `remaining` = the bytes behind; parse_complete never says SIP / keep-alive; if it
+//!    delivers the message, header, every attribute and the protection attributes read as generated
+//!    and NOTHING from behind the message's end is among its attributes (typed getters of every type
+//!    the message lacks find nothing; attribute count); delivered-or-refused is the same for the
+//!    attribute and its same-size non-attribute twin.
 //!  * client_schedule / client_concurrent / client_cleanup (vi): see `c20/client.rs` — loss patterns x
 //!    shape of the exchange (response class success / error, message content, transaction id,
-//!    request content), several pending requests, errors and cancellation, and (client_transport)
+//!    request content, the server address and the ADDRESS THE MESSAGES ARE RECEIVED FROM), several
+//!    pending requests (to one or to different servers, answered from their own / from each other's
+//!    addresses), errors and cancellation, and (client_transport)
 //!    the way the user's send_to completes x the path / latency of the answer, so that a response
 //!    comes in while send_to of the initial transmission or of a retransmission has not returned.
+//!  * client_endpoint (v)+(vi) end to end, see `c20/endpoint.rs`: Endpoint::discover_public_address
+//!    over a mock datagram transport; the scripted server's answer comes back as one datagram from one
+//!    source address through parse_complete -> receive_stun: server address x source address x answered
+//!    transmission x response content x what follows the message inside its datagram.
 //! Not asserted: whether the SIP parser accepts the generated SIP text; MESSAGE-INTEGRITY behind
 //! MESSAGE-INTEGRITY-SHA256; methods other than Binding beyond no-panic; whether a request or
-//! indication that carries a pending transaction id completes the call; 39.5 s vs 63.5 s give-up.
+//! indication that carries a pending transaction id completes the call; 39.5 s vs 63.5 s give-up;
+//! whether a datagram in which bytes follow the message is delivered at all (a receiver may refuse
+//! every datagram whose size differs from the message's; only: not by looking at those bytes).
 
 mod client;
+mod endpoint;
 mod ezk;
 pub mod gen;
 
@@ -313,6 +332,12 @@ fn parse_and_compare(bytes: &[u8], m: &RMsg, pad_in_len: bool, prefix: &str, out
             return None;
         }
     };
+    compare_parsed(&mut pm, bytes, m, pad_in_len, prefix, out);
+    Some(pm)
+}
+
+/// compare header and every attribute of a message ezk parsed with the generated values
+fn compare_parsed(pm: &mut ParsedMessage, bytes: &[u8], m: &RMsg, pad_in_len: bool, prefix: &str, out: &mut CaseOut) {
     if ezk::from_ezk_class(pm.class) != m.class {
         out.fail(format!("{prefix}.header/class"), format!("class {:?}, expected {:?}", pm.class, m.class));
     }
@@ -326,7 +351,7 @@ fn parse_and_compare(bytes: &[u8], m: &RMsg, pad_in_len: bool, prefix: &str, out
             wire.extend(std::iter::repeat(0u8).take(p));
         }
         let shape = if zero_tail(&wire) { "-zero-tail" } else { "" };
-        match ezk::read(&mut pm, a) {
+        match ezk::read(pm, a) {
             None => out.fail(
                 format!("{prefix}.attr/{}-missing", family(a)),
                 format!("get_attr finds no attribute of type {:#06x}; bytes {}", a.typ(), hex(bytes)),
@@ -345,7 +370,6 @@ fn parse_and_compare(bytes: &[u8], m: &RMsg, pad_in_len: bool, prefix: &str, out
             }
         }
     }
-    Some(pm)
 }
 
 /// is tail element `i` one whose verdict the RFC fixes?  MESSAGE-INTEGRITY that follows
@@ -811,6 +835,202 @@ fn check_demux_sip(case: &SipCase, out: &mut CaseOut) {
     }
 }
 
+// --- (ii, v) a datagram that holds a message followed by further bytes ---------------------------------------------------
+//
+// RFC 8489 section 5: the header's length field is the size of the message; the attributes of a message are
+// the ones inside that length. `is_stun_message` reports what lies behind as `remaining`. A datagram
+// may carry more than the message (padding of a lower layer, CRLF, a forged attribute, a second
+// message). What is asserted: such a datagram is never SIP / a keep-alive; IF it is delivered as STUN,
+// the message decodes to exactly the generated values - nothing behind its end is one of its
+// attributes; and whether it is delivered or refused does not depend on the CONTENT of the bytes
+// behind it (two trailers of the same size: a well-formed attribute and bytes that are none).
+// Not asserted: that it is delivered at all (a receiver may refuse every datagram whose size differs
+// from the message's).
+
+fn tlv(a: &RAttr, tid: &[u8; 12]) -> Vec<u8> {
+    let v = encode_value(a, tid);
+    let mut b = vec![];
+    b.extend_from_slice(&a.typ().to_be_bytes());
+    b.extend_from_slice(&(v.len() as u16).to_be_bytes());
+    b.extend_from_slice(&v);
+    b.extend(std::iter::repeat(0u8).take(pad_len(v.len())));
+    b
+}
+
+/// do these bytes read as a sequence of attributes that ends exactly at their end?
+fn wellformed_tlvs(b: &[u8]) -> bool {
+    let mut p = 0;
+    while p < b.len() {
+        if b.len() - p < 4 {
+            return false;
+        }
+        let l = u16::from_be_bytes([b[p + 2], b[p + 3]]) as usize;
+        let e = p + 4 + l + pad_len(l);
+        if e > b.len() {
+            return false;
+        }
+        p = e;
+    }
+    true
+}
+
+fn twin_bytes(attr_tlv: &[u8], twin: &gen::Twin) -> Vec<u8> {
+    let mut b = match twin {
+        gen::Twin::Overrun(_) => attr_tlv.to_vec(),
+        gen::Twin::Random(seed) if !seed.is_empty() => (0..attr_tlv.len()).map(|i| seed[i % seed.len()]).collect(),
+        gen::Twin::Random(_) => vec![0xa5; attr_tlv.len()],
+    };
+    if let gen::Twin::Overrun(add) = twin {
+        let l = u16::from_be_bytes([b[2], b[3]]);
+        let l = l.saturating_add((*add).max(4));
+        b[2..4].copy_from_slice(&l.to_be_bytes());
+    }
+    if wellformed_tlvs(&b) {
+        // make sure the twin is no attribute: its length field points far behind the datagram
+        b[2] = 0xff;
+        b[3] = 0xfc;
+    }
+    b
+}
+
+#[derive(PartialEq, Eq, Clone, Copy, Debug)]
+enum Verdict {
+    Delivered,
+    Refused,
+    Other,
+}
+
+/// one datagram = reference message `refb` (of `m`) ++ `behind`
+fn check_one_datagram(m: &RMsg, refb: &[u8], behind: &[u8], what: &str, out: &mut CaseOut) -> Verdict {
+    let mut dg = refb.to_vec();
+    dg.extend_from_slice(behind);
+    match is_stun_message(&dg) {
+        IsStunMessageInfo::Yes { remaining } if remaining == behind.len() => {}
+        other => out.fail(
+            "c20.demux/is-stun-message-on-stun-followed-by-bytes",
+            format!("is_stun_message = {other:?} for a {} byte message followed by {} bytes ({what}); datagram {}", refb.len(), behind.len(), hex(&dg)),
+        ),
+    }
+    match parse_complete(Default::default(), &dg) {
+        Ok(CompleteItem::Stun(mut pm)) => {
+            // anything from behind the end of the message among its attributes?
+            let mut leaked: Vec<String> = vec![];
+            for p in ezk::probes() {
+                if !m.attrs.iter().any(|a| a.typ() == p.typ()) {
+                    if let Some(r) = ezk::read(&mut pm, &p) {
+                        leaked.push(format!("get_attr({:#06x}) = {r:?}", p.typ()));
+                    }
+                }
+            }
+            let key = RKey::ShortTerm { password: "k".into() };
+            for t in [RTail::Integrity(key.clone()), RTail::IntegritySha256(key), RTail::Fingerprint] {
+                if !m.tail.iter().any(|x| tail_typ(x) == tail_typ(&t)) && ezk::verify(&mut pm, &t).is_some() {
+                    leaked.push(format!("{} found", tail_kind(&t)));
+                }
+            }
+            let n = m.attrs.len() + m.tail.len();
+            if pm.attributes.len() != n {
+                leaked.push(format!("{} attributes, the message has {n}", pm.attributes.len()));
+            }
+            if !leaked.is_empty() {
+                out.fail(
+                    "c20.demux/bytes-behind-the-message-read-as-attribute",
+                    format!(
+                        "the message ends after {} bytes (header length {}), {} bytes follow ({what}); ezk delivers it with {}; datagram {}",
+                        refb.len(),
+                        refb.len() - 20,
+                        behind.len(),
+                        leaked.join(", "),
+                        hex(&dg)
+                    ),
+                );
+                // everything else about this datagram is a consequence
+                return Verdict::Delivered;
+            }
+            compare_parsed(&mut pm, refb, m, false, "c20.datagram", out);
+            check_protection(refb, m, &mut pm, "reference-built", out);
+            Verdict::Delivered
+        }
+        Ok(CompleteItem::Sip { .. }) => {
+            out.fail("c20.demux/stun-followed-by-bytes-classified-sip", format!("{what}; datagram {}", hex(&dg)));
+            Verdict::Other
+        }
+        Ok(_) => {
+            out.fail("c20.demux/stun-followed-by-bytes-classified-keepalive", format!("{what}; datagram {}", hex(&dg)));
+            Verdict::Other
+        }
+        Err(_) => Verdict::Refused,
+    }
+}
+
+fn check_datagram(case: &gen::DatagramCase, out: &mut CaseOut) {
+    let m = &case.msg;
+    let refb = encode(m);
+    classify(m, &refb, out);
+    // the message on its own: the business of ref_decode
+    if !matches!(parse_complete(Default::default(), &refb), Ok(CompleteItem::Stun(_))) {
+        out.class("skipped:the-message-alone-is-not-delivered(see ref_decode)");
+        return;
+    }
+    out.nontrivial(case);
+    let attr_tlv = tlv(&case.attr, &m.tid);
+    let twin = twin_bytes(&attr_tlv, &case.twin);
+    let second = encode(&case.second);
+    out.class(match family(&case.attr) {
+        "addr" => "behind:attribute:addr",
+        "text" => "behind:attribute:text",
+        "bytes" => "behind:attribute:bytes",
+        "error-code" => "behind:attribute:error-code",
+        _ => "behind:attribute:other",
+    });
+    out.class(match case.twin {
+        gen::Twin::Overrun(_) => "behind:attribute-whose-length-overruns-the-datagram",
+        gen::Twin::Random(_) => "behind:bytes-of-the-attribute's-size",
+    });
+    out.class(if case.extra == b"\r\n" || case.extra == b"\r\n\r\n" {
+        "behind:crlf"
+    } else if case.extra.iter().all(|b| *b == 0) && case.extra.len() % 4 == 0 {
+        "behind:zero-words"
+    } else if case.extra.len() < 4 {
+        "behind:1-3-bytes"
+    } else if case.extra.starts_with(b"OPTIONS ") {
+        "behind:sip-text"
+    } else {
+        "behind:4-40-bytes"
+    });
+    if !m.tail.is_empty() && m.tail.iter().any(|t| !matches!(t, RTail::Fingerprint)) {
+        out.class("message-ends-in-integrity(get_attr ignores what follows)");
+    }
+    let v_attr = check_one_datagram(m, &refb, &attr_tlv, "a well-formed attribute", out);
+    let v_twin = check_one_datagram(m, &refb, &twin, "bytes of the same size that are no attribute", out);
+    let v_extra = check_one_datagram(m, &refb, &case.extra, "other bytes", out);
+    let v_second = check_one_datagram(m, &refb, &second, "a second message", out);
+    if v_attr != v_twin && v_attr != Verdict::Other && v_twin != Verdict::Other {
+        out.fail(
+            "c20.demux/verdict-depends-on-bytes-behind-the-message",
+            format!(
+                "message followed by {} bytes: {v_attr:?} when they are a well-formed attribute ({}), {v_twin:?} when they are not ({}); message {}",
+                attr_tlv.len(),
+                hex(&attr_tlv),
+                hex(&twin),
+                hex(&refb)
+            ),
+        );
+    }
+    for (v, label_d, label_r) in [
+        (v_attr, "followed-by-attribute:delivered", "followed-by-attribute:refused"),
+        (v_twin, "followed-by-non-attribute:delivered", "followed-by-non-attribute:refused"),
+        (v_extra, "followed-by-other-bytes:delivered", "followed-by-other-bytes:refused"),
+        (v_second, "followed-by-second-message:delivered", "followed-by-second-message:refused"),
+    ] {
+        match v {
+            Verdict::Delivered => out.class(label_d),
+            Verdict::Refused => out.class(label_r),
+            Verdict::Other => {}
+        }
+    }
+}
+
 fn seed_corpus_stun(dir: &std::path::Path) {
     for (i, m) in sample_strategy(&gen::message(), 3, 150).into_iter().enumerate() {
         let _ = std::fs::write(dir.join(format!("msg-{i:03}")), crate::refmodel::ref_stun::encode(&m));
@@ -829,11 +1049,15 @@ pub fn property() -> Property {
                attribute, or a value whose encoding ends in a zero byte, or an integrity/fingerprint attribute, or a value \
                length not 0 mod 4; distinct = hash of (message, mode). bitflip: non-trivial iff at least one protected range \
                was exhaustively flipped. no_panic: non-trivial iff the bytes parse and carry >=1 attribute. demux_sip: \
-               non-trivial iff the first byte is < 0x40. client_*: a case is a schedule (which transmissions are answered, by which id, \
+               non-trivial iff the first byte is < 0x40. demux_datagram: a case is a message plus what follows it in four datagrams \
+               (an attribute of a type it lacks, a same-size non-attribute, other bytes, a second message); non-trivial iff the message alone \
+               is delivered as STUN, distinct = the case. client_*: a case is a schedule (which transmissions are answered, by which id, \
                when / where send_to fails / when the future is dropped) plus the shape of the exchange (class and content of the \
                delivered messages, transaction id, content of the request; for client_concurrent 2-3 calls with their ids, start \
                instants, answers and response classes; for client_transport how send_to completes, by which path and with which latency \
-               the answer comes back, which transmission gets the right id and which ones foreign ids); every enumerated case that ezk's parser lets through is non-trivial, distinct = the case.",
+               the answer comes back, which transmission gets the right id and which ones foreign ids; in all of them the server address and the address the \
+               messages are received from; for client_endpoint server address, source address, answered transmission, content of the response and what follows \
+               it in its datagram); every enumerated case that ezk's parser lets through is non-trivial, distinct = the case.",
         assumptions: vec![
             "reference model ref_stun is correct (checked against the RFC 5769 vectors by its unit tests; each run re-checks that it decodes and verifies its own output)",
             "text attributes never contain U+0000 and UNKNOWN-ATTRIBUTES never lists type 0x0000 (so a decoder may strip padding a sender counted into the length)",
@@ -842,11 +1066,14 @@ pub fn property() -> Property {
             "the header length field is not in the range covered by MESSAGE-INTEGRITY(-SHA256) (the verifier replaces it, 14.5); it is covered by FINGERPRINT",
             "client: end of a request that is never answered is accepted at 39.5 s (RFC Rm=16) or 63.5 s (pure doubling); no transmission after 31.5 s either way",
             "client: success AND error responses are 'its response' (RFC 8489 6.3.3 / 6.3.4); a request or indication that carries the id of a pending request may either complete the call or be handed to the user (statement silent), both readings accepted as a whole",
-            "client: responses come from the address the request was sent to; two calls with the same id are never pending at the same time; timing ties between different calls are not generated",
+            "client: 'matched by transaction id' means by nothing else: the address a response is received from (the server's, its host with another port, the same IPv4 host as ::ffff:a.b.c.d, another address of either family, the server another pending request was sent to) is no criterion; two calls with the same id are never pending at the same time; timing ties between different calls are not generated",
+            "datagrams: a message ends where its header length says (RFC 8489 section 5; is_stun_message reports the rest as `remaining`); bytes behind it are not part of it. A receiver may deliver the message or refuse the whole datagram (both accepted), but must not read those bytes as attributes of the message nor let their content decide",
+            "client_endpoint: when XOR-MAPPED-ADDRESS and MAPPED-ADDRESS differ either one may be returned; what an error response yields is not asserted beyond: the call ends when it arrives, and never with an address from outside the message",
             "client_transport: a response that StunEndpoint::receive is given while send_to of one of the request's transmissions is still pending (the datagram has been handed to the transport) is 'its response' like any other; whether the wait runs from the start or the end of a slow send_to is not asserted; the call may return at delivery or when that send_to returns",
             "little-endian host (ezk's set_len byte shuffling is only exercised on the host it runs on)",
         ],
-        explanation: "Sampled: typed messages (builder, ref_decode), byte strings and mutated messages (no_panic), SIP text (demux_sip). \
+        explanation: "Sampled: typed messages (builder, ref_decode), byte strings and mutated messages (no_panic), SIP text (demux_sip), \
+                      messages followed by further bytes in one datagram (demux_datagram: attribute of an absent type / same-size non-attribute / CRLF, 1-3 bytes, zero words, arbitrary bytes, SIP text / second message). \
                       Exhaustive per sampled protected message: every single-bit flip inside the covered range (bitflip). \
                       Exhaustive: all 2^7 answered/lost patterns x {right id, wrong id, wrong-then-right} x 4 response delays, each one with \
                       success and error responses (header only and with a pooled attribute body) and with a request / an indication carrying \
@@ -859,6 +1086,11 @@ pub fn property() -> Property {
                       its await points, server task with latency 0 / inside the pending time / after it) x 22 answer patterns (right id at each of the \
                       7 transmissions alone, behind a foreign-id response, after foreign-id responses to all earlier transmissions; never; only foreign ids) \
                       x {success, error} x {header only, one pooled body (four when the initial transmission is the answered one); thorough: every pooled body} (client_transport). \
+                      In client_schedule / client_transport every shape but the plain one rotates over 3 server addresses (IPv4, IPv6, IPv4-mapped) x the 5-6 source addresses of each \
+                      (the server's, other port, other family's name of the same host, other address of the same / other family); client_concurrent: a quarter plain, a quarter drawn per call, \
+                      a quarter one server per call answered from the NEXT call's server, a quarter one server answering from different addresses. \
+                      client_endpoint (Endpoint::discover_public_address, datagram path): every (server, source) pair x 6 (thorough: 28) answered-transmission/delay pairs x {success, error}, response content rotating; \
+                      9 kinds of bytes behind the message x 4 address shapes of the response x 2 (thorough: 7) answers x 2 sources; never answered / only foreign ids per server. \
                       Methods other than Binding: no-panic only.",
         subs: vec![
             prop_sub("builder", gen::msg_case, 2000, 60000, check_builder),
@@ -866,10 +1098,12 @@ pub fn property() -> Property {
             prop_sub("bitflip", gen::protected_case, 24, 128, check_bitflip),
             prop_sub("no_panic", gen::fuzz_case, 2000, 60000, check_no_panic),
             prop_sub("demux_sip", gen::sip_case, 1000, 20000, check_demux_sip),
+            prop_sub("demux_datagram", gen::datagram_case, 500, 15000, check_datagram),
             enum_sub("client_schedule", client::schedule_cases, client::check_schedule),
             enum_sub("client_concurrent", client::concurrent_cases, client::check_concurrent),
             enum_sub("client_cleanup", client::cleanup_cases, client::check_cleanup),
             enum_sub("client_transport", client::transport_cases, client::check_transport),
+            enum_sub("client_endpoint", endpoint::endpoint_cases, endpoint::check_endpoint),
         ],
     }
 }
